@@ -31,6 +31,22 @@ def apply(name, x):
             raise SymError("%s(%r) is not finite" % (name, v))
         return _lift(r.item() if hasattr(r, 'item') else r)
     if not x.im.is_zero():
+        if name == 'exp' and x.re.is_zero():
+            # exp(j y) = cos y + j sin y on the uninterpreted cos / sin, with cos^2 + sin^2 = 1 for this y
+            y = Sym(x.im)
+            cs, sn = apply('cos', y), apply('sin', y)
+            c = ctx()
+            k = ('unit-circle', _key(y.re))
+            if k not in c.uf_apps:
+                c.uf_apps[k] = (cs, y)
+                c.axioms.append(SymBool.cmp('==', cs.re * cs.re + sn.re * sn.re - _q(1)))
+                # ... and applied as a rewrite rule sin^2 -> 1 - cos^2, so that products of unit-circle numbers
+                # normalise without the solver
+                from . import poly as P
+                idx = sorted({-nv for m in sn.re.n.t for nv, e in m})
+                if len(idx) == 1 and not sn.re.d and len(sn.re.n.t) == 1 and cs.re.d == {} and not cs.is_const():
+                    P.declare_quadratic(P.var_names()[idx[0]], P.Poly.const(1) - (cs.re.n * cs.re.n).scale(cs.re.s * cs.re.s))
+            return Sym(cs.re, sn.re, True)
         raise SymError("%s of a complex symbolic value" % name)
     c = ctx()
     k = (name, _key(x.re))
